@@ -6,6 +6,7 @@ import XPathV.Lemmas.PredSem
 import XPathV.Lemmas.PredSem2
 import XPathV.Lemmas.ApiSem
 import XPathV.Lemmas.Pull2Proofs
+import XPathV.Lemmas.Pull2Gen
 /-!
 # C02 — boolean predicates keep exactly the nodes for which the predicate is true
 -/
@@ -228,5 +229,26 @@ open XPathV.ApiSem in
 theorem compile_never_out_of_fuel (cc : CompileCfg) (ns : Option (List (String × String))) (text : List Char) :
     compile cc ns text ≠ .error (.parse .fuel) :=
   compile_ne_fuel cc ns text
+
+/-! ## the machine-level statement for filters with predicates of any value kind (`Lemmas/Pull2Gen`)
+
+`DecOK'`: the oracle `dec` only has to be the keep-decision the sequence model makes for the candidates the machine
+can present (boolean, string and node-list valued predicates without restriction; a number-valued predicate when its
+verdict is a function of the node among the candidates offered — `DecOK → DecOK'`). -/
+section AnyPredicate
+open XPathV.Model
+/-- **no state leaks between evaluations, all sixteen iterator types (`Model/Pull2`)**, filters with
+predicates of any value kind: from every state reachable by any sequence of `Evaluate`, `Clone` and
+`Select` calls, `Evaluate` followed by a drain reports exactly the sequence of the plan for the new
+context node, and nothing else at any fuel. -/
+theorem evaluate_restarts_all_iterators' {F : Type} [NumAlg F] (d : Doc) (cfg : ECfg) (dec : Plan → Ref → Bool) (hd : 0 < d.length)
+    (p0 : Plan) (hw : NeedsWF p0 → WF d) (q : PQ2)
+    (hr : Reach d cfg dec p0 q) (c : Ref) (hdec : q.DecOK' (F := F) d cfg dec c) (hg : Good d c) :
+    ∃ l, sel (F := F) d cfg p0 c = .ok l ∧
+      (∃ q' c' f0, ∀ f, f0 ≤ f → drain2 d cfg dec f q.evaluate c = some (l, q', c')) ∧
+      (∀ f l' q' c', drain2 d cfg dec f q.evaluate c = some (l', q', c') → l' = l) :=
+  reach_evaluate_restarts' d cfg dec hd p0 hw q hr c hdec hg
+
+end AnyPredicate
 
 end XPathV.Theorems.C02
